@@ -31,7 +31,7 @@ REG = {
                  "triedb disk-commit/cap/reference/dereference/reopen/prove/corrupt-proof/DeriveSha ops over 25 prefix-sharing keys and 13 values (empty=delete, embedded, 32/33/300 bytes, ~40 kB), "
                  "with faults: restart (fresh trie.Database over the same disk), crash at a drawn prefix of the write log of a Database.Commit, proof corruption (bit flip re-keyed under its new hash, foreign key, dropped node). "
                  "Oracles vs a map model with one snapshot per committed root: root-canonical (3 construction orders), get-model, reopen, proof-sound, proof-corrupt, stacktrie-eq, commit-crash. "
-                 "non-trivial = >=8 executed ops of >=4 kinds with >=3 keys held at once; distinct = distinct trace digest."),
+                 "non-trivial = >=8 executed ops of >=4 kinds with >=3 keys held at once; distinct = distinct trace digest." + " Added after seeding wave 5: every canonical-root comparison also compares with an independent Merkle-Patricia root computed from the specification (hex-prefix, RLP, keccak, embed-below-32-bytes; no code shared with package trie); op 'copymutate' mutates a copy of the live trie (SecureTrie.Copy / struct copy / Database.CopyTrie) and the original must still serve the model and its root; values sized so that branches of inline leaves come out at 31/32/33 bytes."),
         "expect_probes": ["restart", "commit_crash", "proof_bitflip-rekeyed", "absence_proof", "prefix_key_pair", "derive_ge128", "commit_multi_batch"],
         "components": {"real": ["trie.Trie", "trie.SecureTrie", "trie.StackTrie", "trie.Database", "trie proofs", "types.DeriveSha", "state.Database", "ethdb/memorydb as disk"],
                        "stub": ["disk write log (harness wrapper recording Put/Delete/batch groups, used to materialise crash-prefix images)"]},
@@ -58,7 +58,7 @@ REG.update({
         "level": "exploration",
         "tests": [{"pkg": "./chainsim", "run": "TestC06", "quick": 480, "thorough": 40000, "chunk": 30},
                   {"pkg": "./chainsim", "run": "TestC06Net", "quick": 200, "thorough": 15000, "chunk": 20}],
-        "rule":  "Network half (TestC06Net): a second honest node B follows A over a simulated faulty network driven by a second tape: each view (zone / region / prime) of every block A mines, on any branch, is a message that arrives in order, out of order (children before parents, dominant views before zone views), twice, is dropped, or is lost while B is partitioned; B's append-queue retry is a scheduled step; B's coordinator follows A's head as far as B has the blocks. When A's tape ends the faults stop, what B lacks is re-sent newest-first, and within 4 re-send rounds B must hold A's canonical line and be able to take A's head (follower-converges) - i.e. B re-executes every canonical block to the commitments A put in the header; no delivery may make B panic (follower-panic)." + S5_RULE + "Oracle after every head change (append or reorg): multiset hash of exactly the ut+cl records in the zone db == header UTXORoot, their count == stored UTXO-set size, state opens at the header's EVM/ETX roots.",
+        "rule":  "Network half (TestC06Net): a second honest node B follows A over a simulated faulty network driven by a second tape: each view (zone / region / prime) of every block A mines, on any branch, is a message that arrives in order, out of order (children before parents, dominant views before zone views), twice, is dropped, or is lost while B is partitioned; B's append-queue retry is a scheduled step; B's coordinator follows A's head as far as B has the blocks. When A's tape ends the faults stop, what B lacks is re-sent newest-first, and within 4 re-send rounds B must hold A's canonical line and be able to take A's head (follower-converges) - i.e. B re-executes every canonical block to the commitments A put in the header; no delivery may make B panic (follower-panic)." + S5_RULE + "Oracle after every head change (append or reorg): multiset hash of exactly the ut+cl records in the zone db == header UTXORoot, their count == stored UTXO-set size, state opens at the header's EVM/ETX roots." + " Added after seeding wave 5: every 4th head the validator's Qi verdicts (honest spend, note merging, overspend, duplicate outpoint) are taken with and without the sender-cache shortcut and must agree: the verdict on a block is a function of the block and the chain, not of what the node has cached.",
         "expect_probes": ["nonempty_utxo_set_checked", "reorg", "net.deliver-reordered", "net.deliver-duplicate", "net.dropped", "net.partition", "net.followers_caught_up"],
         "components": S5_COMPONENTS,
         "assumptions": ["single slice (expansion 0); KawPow/AuxPoW regime off", "process-determinism across engines/nodes is decided by C10/C01 cross-node comparisons, not here"],
@@ -127,7 +127,7 @@ REG.update({
                  "(add-local / add-remote / add-remotes / add-locals / set-gas-price / head(+1..2 blocks from pool pending or foreign txs, balance drain/top-up, gas-limit/base-fee change) / reorg(depth 1..2, keep none/half/all) / fire(6 tickers) / advance-clock / evict / reads / Qi add/remove) "
                  "over 4 accounts x nonces 0..15 x 10 prices, and the schedule: at every lock acquisition, channel operation, select, go statement and map range of the AST-rewritten tx_pool.go exactly one parked goroutine is released, chosen by tape[i] mod |runnable|; tickers fire only when the tape says so. "
                  "Oracles at quiescent points (no reset pending): pending nonce-contiguous from state nonce and affordable per tx, pending and queue disjoint, all == lists == price index, limits, replacement only with price bump, no panic, deadlock decided by the scheduler; "
-                 "TestC19Seq additionally compares a single-client history with a sequential reference pool. non-trivial = >=4 executed ops of >=3 kinds with >=1 forced preemption; distinct = distinct trace digest."),
+                 "TestC19Seq additionally compares a single-client history with a sequential reference pool. non-trivial = >=4 executed ops of >=3 kinds with >=1 forced preemption; distinct = distinct trace digest." + " Added after seeding wave 5: wherever a list's sorted-read cache is populated (what Content, Pending and the miner's view return) it holds exactly the list's transactions in nonce order (reader-view)."),
         "expect_probes": ["replacement_accepted", "replacement_rejected", "queue_truncated_or_evicted", "pending_truncated_or_evicted", "pending_demoted", "queued_promoted", "tx_resurrected", "lock_contended", "pool_full",
                           "forced_preemption", "tick_reorg", "clock_jump", "select_choice", "map_order_permuted", "price_change"],
         "components": {"real": ["core.TxPool (tx_pool.go AST-rewritten at build time from /repo's working tree: yields, TryLock loops, named goroutines, scheduler-owned tickers/clock/select/map order)", "tx_list", "tx_noncer", "tx_journal (real files)",
@@ -171,7 +171,7 @@ REG.update({
         "rule": S5_RULE + ("The zone database engine (memorydb / leveldb / pebble on a scratch directory) is drawn per run. Oracle 1 (utxo-model), for every block the node accepts as head: with the stored UTXO set before and after the block, every Qi transaction's inputs are distinct, unspent on this chain "
                  "(outputs created earlier in the block allowed), unlocked, owned by the key that the harness itself verifies the (MuSig2-aggregated) Schnorr signature against, outputs <= inputs; everything that disappeared was spent or trimmable, everything that appeared is a transaction output or was minted by an inbound ETX of the block for no more than its value. "
                  "Oracle 2 (direct-verdict), every third head: the validator's Qi path core.ProcessQiTx is driven with adversarial transactions over the live UTXO set through a batch of the drawn engine "
-                 "(same outpoint twice in one tx, same outpoint in two txs of one block, spend of an output created earlier in the block, locked input, non-owner key, outputs > inputs, honest single-key and two-input MuSig2 spends) and its accept/reject verdict must equal the model's."),
+                 "(same outpoint twice in one tx, same outpoint in two txs of one block, spend of an output created earlier in the block, locked input, non-owner key, outputs > inputs, honest single-key and two-input MuSig2 spends) and its accept/reject verdict must equal the model's." + " Added after seeding waves 4/5: adversarial cases 'second input not owned, same pubkey', 'payment to an in-zone Quai-ledger payee', 'k+1 notes merged into one note of the next denomination'; every verdict that does not concern the signature is taken twice - with the signature check and with the sender-cache shortcut (checkSig=false) - and must agree."),
         "expect_probes": ["qi_tx_in_accepted_block", "qi_minted_by_inbound_etx", "qi_adversarial.second-tx-same-outpoint-in-block", "qi_adversarial.dup-outpoint-in-one-tx", "qi_adversarial.locked-input", "qi_adversarial.two-input-musig-honest", "reorg"],
         "components": S5_COMPONENTS,
         "assumptions": ["wrong-denomination merges, wrapping and Qi->Quai conversion outputs are not generated", "fork regimes other than the default (QiWrappingChangeBlock etc.) are not varied",
@@ -203,7 +203,7 @@ REG.update({
         "level": "exploration",
         "tests": [{"pkg": "./evmsim", "run": "TestC02", "quick": 2400, "thorough": 200000, "chunk": 150}],
         "rule": 'one evaluation = one rapid tape, executed as ~17 transaction passes: 1..5 contracts of 1..7 actions each compiled by the harness assembler into a call DAG (SSTORE/SLOAD/TSTORE/LOG/MSTORE/value transfer/SELFDESTRUCT/ETX/CONVERT/plain CALL leaving the chain scope/lockup precompile/other precompiles/CALL,CALLCODE,DELEGATECALL,STATICCALL with drawn gas/CREATE,CREATE2/REVERT/INVALID/RETURN), a drawn transaction kind (call, create, inbound ETX, to an external or Qi address, to the lockup precompile, EOA self-destruct, transfer), prime-terminus and block numbers on both sides of each fork, state size, fee, ETX eligibility mask, lockup records on disk or in the batch, access-list enforcement, and the block batch backend (memorydb / leveldb / pebble). Fault plan: one ample-gas pass records every interpreter step; then the gas limit is cut at every depth-1 step boundary (all if <=40, else a drawn subset) plus drawn fractions, and gas is injected away at inner-frame steps (all if <=24) - every cut is one pass through the real core.ApplyTransaction. ' + ("Oracles over the whole committed trie: tx-conservation (sum of balances after <= before - gasUsed*price - value carried by emitted ETXs + refunds + inbound value: nothing created), value-destroyed (the lower bound, with documented burns - SELFDESTRUCT to self, value of a failed inbound ETX, residue on the zero address - counted by probes and not reported), "
-                 "gas-charge-bounds (gasUsed*price <= charge <= gasLimit*price), failed-tx-balance (a failed tx changes only the payer), negative-balance. non-trivial = value moved; distinct = trace digest."),
+                 "gas-charge-bounds (gasUsed*price <= charge <= gasLimit*price), failed-tx-balance (a failed tx changes only the payer), negative-balance. non-trivial = value moved; distinct = trace digest." + ' Added after seeding wave 5: after the checks of a pass, every account the transaction destroyed is created again (StateDB.CreateAccount, what the next transfer or creation landing on it does) and must start with balance 0.'),
         "expect_probes": ["oog_cut", "documented_burn", "etx_committed", "inner_failure_outer_success", "selfdestruct_then_reverted"],
         "components": {"real": ["core.ApplyTransaction and below", "state.StateDB (balances summed over the committed trie)", "block batch on memorydb/leveldb/pebble"],
                        "stub": ["ChainContext stub", "headers built with types.EmptyWorkObject"]},
